@@ -424,6 +424,30 @@ class SpaceImpl:
         return "ok" + "".join(
             f" | {mk} {z} n={len(mem)}" + "".join(" " + ",".join(t) for t in mem) for mk, z, mem in groups)
 
+    def sdefault(self):
+        """the marker size of agents portrayed by {}: all agents drawn with an empty portrayal"""
+        m = L()
+        ax = m["Figure"]().add_subplot()
+        with warnings.catch_warnings():
+            warnings.simplefilter("ignore")
+            try:
+                m["draw_space"](self.space, lambda a: {}, ax=ax)
+            except Exception as e:
+                self.trace.append(("sdefault", len(self.where), exc_tok(e)))
+                return exc_tok(e)
+        sizes = sorted({float(s) for c in ax.collections if isinstance(c, m["PathCollection"]) for s in c.get_sizes()})
+        if not sizes:
+            tok = "none"
+        elif len(sizes) > 1:
+            tok = "several"
+        elif self.fam in NETS and len(self.labels) > 1:
+            sd = self.s_default()
+            tok = "layout" if abs(sizes[0] - sd) <= 1e-9 * max(1.0, sd) else self.frac_tok(sizes[0], 10000)
+        else:
+            tok = self.frac_tok(sizes[0], 10000)
+        self.trace.append(("sdefault", len(self.where), tok))
+        return "ok " + tok
+
     def altair(self, component=False, default=False):
         m = L()
         snap = self.snapshot()
@@ -681,6 +705,8 @@ class SpaceImpl:
             return self.draw()
         if k == "drawc":
             return self.draw(component=True)
+        if k == "sdefault":
+            return self.sdefault()
         if k == "drawk":
             return self.draw(kw=dict(t.split("=") for t in w[1:]))
         if k == "altair":
@@ -1041,7 +1067,7 @@ def gen_space(R, tier):
         if k < 0.93:
             return "altairc"
         if k < 0.95:
-            return R.choice(["altairc0", "drawc0"])
+            return R.choice(["altairc0", "drawc0", "sdefault", "sdefault"])
         return "heap"
 
     def set_portray(vid):
@@ -1402,6 +1428,11 @@ def oracle(sc, obs):
                 bad.append(f"altair-mark: marks are {facts['type']} filled={facts['filled']}")
             if any(t in ("x", "y", "color", "size") or not any(t in r for r in rows) for t in facts["tip"]):
                 bad.append(f"altair-tooltip: tooltip fields {facts['tip']} for rows {rows}")
+        elif kind == "sdefault":
+            _, n, tok = ev
+            # the default size is a positive finite number whenever there is an agent to draw (V12)
+            if tok.startswith("err") or (n > 0 and tok in ("none", "several", "?", "inf", "nan")) or (n == 0 and tok != "none"):
+                bad.append(f"default-size: with {n} agents in the space the default marker size is {tok}")
         elif kind == "layer-mutated":
             bad.append(f"layer-mutated: drawing the property layer changed the model's layer values from {ev[1]} to {ev[2]}")
         elif kind == "layers":
